@@ -263,6 +263,74 @@ class Model:
                 return {"op": k, "ir": r.choice(self.irs)}
         return {"op": "noop"}
 
+    def gen_burst(self):
+        """Several index-affecting edits aimed at ONE container, then
+        members added to / moved into it: drives the number of pending
+        index updates below, to and beyond the container's size."""
+        r = self.rnd
+        ops = []
+        if r.random() < 0.5 and self.secs:
+            s = r.choice(list(self.secs))
+            ivs = self.ivs_of_sec(s)
+            for _ in range(r.randint(1, 6)):
+                if not ivs:
+                    break
+                i = r.choice(ivs)
+                if r.random() < 0.7:
+                    a = self.addr()
+                    ops.append({"op": "iv_addr", "id": i,
+                                "addr": a if a is not None or
+                                r.random() < 0.3 else r.randint(0, 30)})
+                else:
+                    ops.append({"op": "iv_size", "id": i,
+                                "size": self.isize()})
+            for _ in range(r.randint(0, 3)):
+                others = [i for i in self.ivs if i not in ivs]
+                if others and r.random() < 0.5:
+                    ops.append({"op": "mv_iv", "id": r.choice(others),
+                                "sec": s,
+                                "via": r.choice(["attr", "add", "update"])})
+                elif len(self.ivs) + sum(
+                        1 for o in ops if o["op"] == "new_iv") < 10:
+                    o = self.gen_new_iv()
+                    o["sec"] = s
+                    ops.append(o)
+            if ivs and r.random() < 0.3:
+                ops.append({"op": "rm_iv", "id": r.choice(ivs),
+                            "via": "discard"})
+        elif self.ivs:
+            iv = r.choice(list(self.ivs))
+            bs = self.blks_of_iv(iv)
+            for _ in range(r.randint(1, 6)):
+                if not bs:
+                    break
+                b = r.choice(bs)
+                if r.random() < 0.6:
+                    ops.append({"op": "blk_off", "id": b, "off": self.off()})
+                else:
+                    ops.append({"op": "blk_size", "id": b,
+                                "size": self.bsize()})
+            for _ in range(r.randint(0, 3)):
+                others = [b for b in self.blks if b not in bs]
+                if others and r.random() < 0.5:
+                    ops.append({"op": "mv_blk", "id": r.choice(others),
+                                "iv": iv,
+                                "via": r.choice(["attr", "add", "update"])})
+                elif len(self.blks) + sum(
+                        1 for o in ops if o["op"] == "new_blk") < 20:
+                    o = self.gen_new_blk()
+                    o["iv"] = iv
+                    ops.append(o)
+        # drop ops made inapplicable by earlier ones of the same burst
+        out, gone = [], set()
+        for o in ops:
+            if o["op"] == "rm_iv":
+                if o["id"] in gone:
+                    continue
+                gone.add(o["id"])
+            out.append(o)
+        return out
+
     def new_expr(self):
         self.nexpr += 1
         return "e%d" % self.nexpr
@@ -960,6 +1028,14 @@ def run_history(ctx, case, gt, prop, nops, regime=None, focus=None,
     real = Real(gt, ctx, random.Random(case.seed_str + ":uuid"))
     want = {"C05": ("C05",), "C06": ("C06",), "C13": ("C13",)}[prop]
     ctx.count("regime:" + regime)
+    # lookup schedule of this history: how often a check point is placed
+    # (rare check points let index-affecting edits pile up between lookups)
+    sched = rnd.choice(["dense", "dense", "sparse", "rare", "end-only"])
+    check_prob = {"dense": check_prob, "sparse": 0.1, "rare": 0.03,
+                  "end-only": 0.0}[sched]
+    extents_every_step = extents_every_step and sched == "dense"
+    store_every_step = sched in ("dense", "sparse")
+    ctx.count("schedule:" + sched)
 
     def do(op):
         case.ops.append(op)
@@ -975,14 +1051,21 @@ def run_history(ctx, case, gt, prop, nops, regime=None, focus=None,
         do(op)
     edits_since = collections.Counter()
     for step in range(nops):
-        op = model.gen_edit(allow_pop=True, focus=focus)
-        do(op)
-        if op["op"] in ("blk_off", "blk_size", "iv_addr", "iv_size",
-                        "mv_blk", "mv_iv"):
-            edits_since[op["op"]] += 1
+        if rnd.random() < 0.12:
+            batch = model.gen_burst()
+            ctx.count("bursts")
+        else:
+            batch = [model.gen_edit(allow_pop=True, focus=focus)]
+        for op in batch:
+            if op["op"] == "rm_iv" and not model.ivs[op["id"]]["sec"]:
+                continue
+            do(op)
+            if op["op"] in ("blk_off", "blk_size", "iv_addr", "iv_size",
+                            "mv_blk", "mv_iv"):
+                edits_since[op["op"]] += 1
         if prop == "C06" and extents_every_step:
             check_extents(ctx, real, model)
-        if prop == "C13":
+        if prop == "C13" and store_every_step:
             check_store(ctx, real, model)
         if rnd.random() < check_prob:
             for k, v in edits_since.items():
@@ -994,6 +1077,8 @@ def run_history(ctx, case, gt, prop, nops, regime=None, focus=None,
         rnd, nqueries * 2, complete_points=True), want)
     if prop == "C06":
         check_extents(ctx, real, model)
+    if prop == "C13":
+        check_store(ctx, real, model)
     ctx.count("check_points")
     ctx.count("history_ops", len(case.ops))
     ctx.seen("nontrivial", case.ops)
